@@ -47,6 +47,8 @@ THEOREMS = ["JanetModel.Props.C03." + t for t in (
     "equals_pointer_shortcuts_are_reflexivity", "pointer_shortcut_tie",
     # session 4b: equal lookups => MapEquiv => `=` structs
     "struct_by_lookups", "map_equiv_of_equal_lookups",
+    # session 4b: traversal_next status numbers / branch structure regenerated
+    "traversal_next_tie",
 )]
 # which law of a symbol-cache scenario to report first (the most direct statement of the property comes first)
 SYM_LAW_ORDER = ["gensym-duplicates-live-symbol", "symbol-duplicate-live", "symbol-duplicate-after-collect", "compare-zero-iff-equals", "symbol-identity",
@@ -319,6 +321,7 @@ def run(ctx, scripts=None):
         ctx.build.boot()
         ctx.gen("Value.lean", gen_value.render(ctx.build.tree))
         ctx.gen("ValueAbs.lean", gen_value.render_abs(ctx.build.tree))
+        ctx.gen("ValueTrav.lean", gen_value.render_trav(ctx.build.tree))
     except ExtractError as e:
         broken.append("translator tools/gen/value.py: %s" % e)
         ctx.broken.append(broken[-1])
